@@ -63,6 +63,7 @@ func (q instantQuery) Run() queryResult {
 	}
 
 	qr.value, qr.stats, qr.err = streamSamples(resp.Body)
+	qr.err = bodyError(ctx, qr.err)
 	return qr
 }
 
